@@ -7,6 +7,7 @@ package worlds
 // simnet. Used by the W-NODE and W-NET worlds.
 
 import (
+	"archive/tar"
 	"bytes"
 	"context"
 	"encoding/binary"
@@ -281,6 +282,44 @@ func (n *nkNode) Upload(name string, content []byte, pin bool) (boson.Address, e
 	rec := n.do(http.MethodPost, "/aurora?name="+name, content, h)
 	if rec.Code != http.StatusCreated {
 		return boson.ZeroAddress, fmt.Errorf("upload: status %d: %s", rec.Code, strings.TrimSpace(rec.Body.String()))
+	}
+	var resp struct {
+		Reference boson.Address `json:"reference"`
+	}
+	if err := json.Unmarshal(rec.Body.Bytes(), &resp); err != nil {
+		return boson.ZeroAddress, err
+	}
+	return resp.Reference, nil
+}
+
+// nkMember is one file of a directory upload.
+type nkMember struct {
+	Name    string
+	Content []byte
+}
+
+// UploadDir uploads a directory as a tar collection through POST /aurora.
+func (n *nkNode) UploadDir(members []nkMember, pin bool) (boson.Address, error) {
+	var buf bytes.Buffer
+	tw := tar.NewWriter(&buf)
+	for _, m := range members {
+		if err := tw.WriteHeader(&tar.Header{Name: m.Name, Mode: 0600, Size: int64(len(m.Content))}); err != nil {
+			return boson.ZeroAddress, err
+		}
+		if _, err := tw.Write(m.Content); err != nil {
+			return boson.ZeroAddress, err
+		}
+	}
+	if err := tw.Close(); err != nil {
+		return boson.ZeroAddress, err
+	}
+	h := map[string]string{"Content-Type": "application/x-tar", api.AuroraCollectionHeader: "true"}
+	if pin {
+		h[api.AuroraPinHeader] = "true"
+	}
+	rec := n.do(http.MethodPost, "/aurora", buf.Bytes(), h)
+	if rec.Code != http.StatusCreated {
+		return boson.ZeroAddress, fmt.Errorf("upload dir: status %d: %s", rec.Code, strings.TrimSpace(rec.Body.String()))
 	}
 	var resp struct {
 		Reference boson.Address `json:"reference"`
